@@ -10,7 +10,7 @@ translator; (2) every recorded leg of every traced run replayed in the Lean acti
 effect footprints) evaluated on every recorded commit.
 Oracle: `runs.oracle_c09` (the property statement on recorded runs) on every trace; for a wiring whose obligation is broken
 additionally on 3–6 more runs of that configuration (more seeds, more particles, larger leg cap)."""
-from harness import runs, runcommon, actcorr, translate, fpcorr
+from harness import runs, runcommon, actcorr, translate, fpcorr, sysinvcorr
 
 ID = "C09"
 NEEDS_GEN = True
@@ -109,6 +109,10 @@ def run(ctx, which=WHICH, oracle=None, per_trace=None):
                 fpcorr.check_trace(ctx, tr, w)
             except Exception as e:
                 ctx.disagree("fp.check-trace", {"ini": meta["ini"], "job": tr.get("job")}, "evaluated", repr(e))
+            try:
+                sysinvcorr.check_trace(ctx, tr)     # hypotheses of JF.Props.SystemInv (CandOK, TieFree) measured on the run
+            except Exception as e:
+                ctx.disagree("sysinv.check-trace", {"ini": meta["ini"], "job": tr.get("job")}, "evaluated", repr(e))
         for leg in tr["legs"][:cap]:
             pre = leg.get("preceding")
             ctx.cls(("act", meta["ini"].split("/")[-1], None if pre is None else meta["handlers"][pre][0], len(leg["created"]), len(leg["trashed"])))
